@@ -5,7 +5,7 @@ import anchors
 from core import (BA, FA, call_matches, callee_paths, op_local, op_place, op_const, const_int, place_fields, rvalue_places,
                   field_writes, taint, closure_sites)
 from rules import common, dirt
-from rules.C06 import backward_direct, primary_target_rule
+from rules.C06 import backward_direct
 
 EXPLANATION = (
     "Static must-pass-through / value-flow rules on the MIR of the dirtiness routine, redo-ifchange, BuildJob::start, "
@@ -39,13 +39,14 @@ def run(ctx):
     inh = prog.one(r"env::Env::inherit")
     iba = BA.of(inh)
     clears = [i for (b, i) in env_setters(prog, "REDO_UNLOCKED") if b.key == inh.key and env_set_value(b, i) == ""]
-    oks = [i for i, _, st_ in anchors.agg_sites(inh, r"core::result::Result") if st_["rv"]["variant"] == "Ok"]
+    # the Ok values inherit() itself returns (an Ok built by a Result-returning helper spliced into it feeds a `?`)
+    oks = common.returned_ok_blocks(inh)
     p_ = iba.path([0], oks, avoid=frozenset(clears), incl=True) if oks else [0]
     ctx.ob("R1.8", "Env::inherit|REDO_UNLOCKED-not-inherited", bool(clears) and p_ is None, where=inh.span,
            detail="REDO_UNLOCKED is reset before every Ok return of Env::inherit" if clears and p_ is None else
            "REDO_UNLOCKED leaks below the re-evaluated target: every redo-ifchange inside its .do skips recording dependency edges, so the rebuilt target forgets its inputs")
     # and redo-ifchange's edge recording is skipped only for that flag / at top level
-    I2 = prog.one(r"@bin::ifchange::run::\{closure#0\}")
+    I2 = _ifchange_driver(prog)
     i2 = BA.of(I2)
     f2a = FA.of(I2)
     sites2 = _add_dep_sites(prog, I2)
@@ -60,7 +61,7 @@ def run(ctx):
     ctx.ob("R1.8", "%s|edges-skipped-only-when-unlocked" % I2.key, ok, where=I2.span, detail="the add_dep loop is reached on the not-unlocked side of the is_unlocked() test")
 
     # ---- R1.3
-    I = prog.one(r"@bin::ifchange::run::\{closure#0\}")
+    I = _ifchange_driver(prog)
     iba = BA.of(I)
     ifa = FA.of(I)
     runs = iba.calls(r"jobserver::JobServer::block_on")
@@ -100,23 +101,26 @@ def run(ctx):
             if dd and dd[0] == "stmt" and dd[3]["k"] == "agg":
                 mode = {"variant": dd[3].get("variant")}
         ctx.ob("R1.3", "%s|edge-mode-Modified" % I.key, (mode or {}).get("variant") == "Modified", where=ctx.where(AB, abb), detail="add_dep mode: %s" % (mode or {}).get("variant"))
-        # the vector iterated for add_dep and the slice given to builder::run are the same upvar
+        # the collection iterated for add_dep and the slice given to builder::run are the same object: both operands go
+        # back, by direct steps, to the same root (a captured variable, a parameter, a local - e.g. a state struct) and
+        # the same field path; the recorded item is an element read out of it (std-internal projections only on top)
         bt = I.blocks[br[0]]["term"]
-        sl_run, _, _ = backward_direct(I, op_local(bt["args"][2]))
+        run_paths = common.operand_origin_paths(I, bt["args"][2])
         if site["kind"] == "direct":
-            sl_add, _, _ = backward_direct(I, op_local(at["args"][3]), depth=200)
+            add_paths = common.operand_origin_paths(I, at["args"][3])
             from_item = True
         else:
             # add_dep sits in a closure handed to an iterator adaptor: the edge must name the closure's item, and the
             # iterator the adaptor runs over is what is traced back in the enclosing body
             csl, _, _ = backward_direct(AB, op_local(at["args"][3]), depth=60)
             from_item = any(l is not None and 2 <= l <= AB.arg_count for l in csl)
-            sl_add, _, _ = backward_direct(I, op_local(I.blocks[site["bb"]]["term"]["args"][0]), depth=200)
-        up_run = {u for l in sl_run for u in _upvars_read(I, l)}
-        up_add = {u for l in sl_add for u in _upvars_read(I, l)}
-        ok = bool(up_run & up_add) and from_item
+            add_paths = common.operand_origin_paths(I, I.blocks[site["bb"]]["term"]["args"][0])
+        shared = sorted({(r1, f1) for (r1, f1) in run_paths for (r2, f2) in add_paths
+                         if r1 == r2 and r1[0] in ("upvar", "param", "def") and tuple(f2[:len(f1)]) == tuple(f1)
+                         and all(re.match(r"(core|alloc|std)::|tuple\.", x) for x in f2[len(f1):])}, key=str)
+        ok = bool(shared) and from_item
         ctx.ob("R1.3", "%s|same-targets-recorded-and-built" % I.key, ok, where=ctx.where(I, adds[0]),
-               detail="add_dep iterates the same captured `%s` that is passed to builder::run" % sorted(up_run & up_add) if ok else "the recorded edges are not for the targets that get built (%s vs %s)" % (sorted(up_add), sorted(up_run)))
+               detail="add_dep iterates the same `%s` that is passed to builder::run" % (shared[0],) if ok else "the recorded edges are not for the targets that get built (%s vs %s)" % (sorted(add_paths, key=str)[:3], sorted(run_paths, key=str)[:3]))
 
     # ---- R1.4
     R = anchors.record_new_state(prog)
@@ -170,6 +174,72 @@ def run(ctx):
         nt = arms.get(dv["NeedTargets"])
         common.mpt(ctx, "R1.6", "%s|NeedTargets-builds-or-delegates" % J.key, J, [nt] if nt is not None else [], common.ok_returns(J) + [x for x in jba.returns()], disp,
                    "the NeedTargets arm goes to start_deps_unlocked or (no_oob) start_self", "an uncertain verdict can return without building or delegating")
+
+
+def primary_target_rule(ctx, rid):
+    """R1.5 = R3.5: in redo-unlocked, the Command that gets REDO_UNLOCKED is given the primary target (args.nth(1))
+    and nothing derived from the remaining-arguments collection.
+
+    Local generalisation of rules.C06.primary_target_rule (which counts the textual `Command::env(REDO_UNLOCKED)`
+    sites of the body): stated per *feasible* site (core.FAx). When the two phases share one helper
+    `run_ifchange(targets, lock_owner)` that canon spliced in at both call sites, each copy contains the
+    `if lock_owner == Caller { cmd.env(REDO_UNLOCKED, ..) }` call, but only the copy whose constant says so can execute
+    it; the copy for the dependency phase is not a site."""
+    from core import FAx
+    from rules.C06 import env_setters, env_set_value
+    prog = ctx.prog
+    U = prog.one(r"@bin::unlocked::run")
+    ba = BA.of(U)
+    ufa = FAx.of(U)
+    setters = [i for b, i in env_setters(prog, "REDO_UNLOCKED") if b.key == U.key and env_set_value(b, i) != "" and i in ufa.live]
+    if not ctx.ob(rid, "unlocked::run|sets-REDO_UNLOCKED", len(setters) >= 1, where=U.span, detail="%d reachable Command::env(REDO_UNLOCKED) sites" % len(setters)):
+        return
+    nth = [i for i in ba.calls(r"core::iter::traits::iterator::Iterator::nth")]
+    collect = [i for i in ba.calls(r"core::iter::traits::iterator::Iterator::collect")]
+    found = []
+    for env_bb in setters:
+        # the Command value: the latest Command::new before the env call, and the arg(s) calls of that same builder
+        cmd_new = None
+        for n in ba.calls(r"std::process::Command::new"):
+            if ufa.dominates(n, env_bb):
+                if cmd_new is None or ufa.dominates(cmd_new, n):
+                    cmd_new = n
+        args_calls = [] if cmd_new is None else [
+            i for i in ba.calls(r"std::process::Command::args?") if i in ufa.live and ufa.dominates(cmd_new, i) and (ufa.dominates(i, env_bb) or ufa.dominates(env_bb, i))
+            and not any(ufa.dominates(cmd_new, m) and ufa.dominates(m, i) and m != cmd_new for m in ba.calls(r"std::process::Command::new"))]
+        found.append((env_bb, args_calls))
+    if not ctx.ob(rid, "unlocked::run|anchors", all(bool(a) for _, a in found) and len(nth) == 1 and len(collect) == 1, where=ctx.where(U, setters[0]),
+                  detail="Command::arg(s) for the unlocked phase, args.nth(1) and the collected remaining args located"):
+        return
+    prim = taint(U, seeds={U.blocks[nth[0]]["term"]["dest"]["l"]}, mode="derived")
+    rest = taint(U, seeds={U.blocks[collect[0]]["term"]["dest"]["l"]}, mode="derived")
+    for k, i in common.ordinal_keys([("Command::arg", i) for _, a in found for i in a]):
+        t = U.blocks[i]["term"]
+        a = op_local(t["args"][1])
+        from_prim = a in prim
+        from_rest = a in rest
+        ctx.ob(rid, "unlocked::run|unlocked-phase-argument|%s" % k, from_prim and not from_rest, where=ctx.where(U, i),
+               detail="the redo-ifchange run with REDO_UNLOCKED is given %s" % (
+                   "the primary target" if from_prim and not from_rest else
+                   "the dependency list again instead of the primary target: the primary target is never re-evaluated, and the dependencies are built with a forced, unheld lock"))
+
+
+def _ifchange_driver(prog):
+    """redo-ifchange's driver, as a role: the bin-unit body that hands redo-ifchange's own verdict callback
+    (anchors.ifchange_verdict: the body that asks deps::is_dirty with the persisting default callbacks) to builder::run.
+    Today a closure inside ifchange::run; equally the command's `run` itself or a method of a state struct."""
+    from facts import strip_generics
+    dec = anchors.ifchange_verdict(prog).key
+    out = []
+    for b in prog.bodies.values():
+        if b.unit != "bin":
+            continue
+        for i in BA.of(b).calls(r"builder::run"):
+            ks = [strip_generics(g.get("fn") or g.get("closure") or "") for g in b.blocks[i]["term"].get("gargs", [])]
+            if dec in ks:
+                out.append(b)
+                break
+    return anchors.the(sorted(out, key=lambda b: b.key), "bin-unit body that calls builder::run with redo-ifchange's verdict callback")
 
 
 def _upvars_read(body, l):
